@@ -39,6 +39,19 @@ PROPS = {
     ),
 }
 
+PROPS["C06"] = dict(
+    modules=["contracts.C06_clean"],
+    decided=["every path through the deleting functions that reaches remove/rmdir/DELETE satisfies the ownership guard "
+             "(state-free, so it holds for every database content and therefore every history)"],
+    undecided=["time of check / time of use between refreshed() and remove() (a concurrent writer is outside the model)"],
+    assumptions=["Path.remove/rmdir/iterdir and os.stat behave as documented"],
+    level="Guard-dominance contracts on the real functions: every effect that deletes (Path.remove, Path.rmdir, remove_p, "
+          "DELETE FROM node, writes to Workflow.to_be_deleted) is proved, on every path, to be dominated by the ownership "
+          "condition the property states; SQL selections (SELECT_OUTPUTS, optional_to_be_deleted) are proved equivalent "
+          "to their spec predicates.",
+    note="Trusted: file-system primitives, SQLite statement semantics, FileHash.from_json (bounded in C13), solvers, pyvc.",
+)
+
 NOT_BUILT = {}
 
 _loaded = False
